@@ -28,7 +28,7 @@
   test is idempotent, covered by the correspondence runs); `^file` words and `-x`/`-w` option
   splitting are outside the composition theorem (files: C10; splitting: `evWords` is executable).
 -/
-import PdshVerif.Opt.ExcludeCompose
+import PdshVerif.Opt.ExcludeContact
 
 namespace PdshVerif.C02
 open PdshVerif.Hostlist PdshVerif.Opt PdshVerif.Opt.Exclude
@@ -94,6 +94,53 @@ theorem applyRegex_hosts (cfg : Cfg) (hfix : cfg.fixRemoveDepth = true) (env : E
     (fun _ _ h hw hh hs => narrow_of_le h hw hh hs) (fun _ h => h) env rs e hid hg hf hits hm
   exact ⟨e', h1, h2, h4⟩
 
+/-! What is assumed of `regcomp` / `regexec`: NOTHING about which strings a pattern matches.  The theorems hold for
+    every oracle `m : host → Option Bool` (for every table `env.rematch : pattern → host → Option Bool`): all they
+    use is that the verdict on a host is a function of (pattern, host name) — the same name gets the same verdict
+    wherever it stands in the list and however often it is asked — and that `regcomp`'s refusal is a function of
+    the pattern (`env.badre`).  The check fills the table with libc's answers for the flags of
+    `regex_info_create` (REG_EXTENDED | REG_NOSUB, eflags 0; harness/regex_oracle.c); a pattern that matches the
+    empty string or every name, or none, is just a constant oracle: -/
+
+/-- KEEP and DROP are complements: the filter written slash re slash and the same pattern behind a dash split
+    the list — every occurrence of every host is in exactly one of the two results -/
+theorem filter_keep_drop_complement (cfg : Cfg) (hfix : cfg.fixRemoveDepth = true) (m : Str → Option Bool)
+    (pat : Str) (e : EL) (hid : e.IdsOk) (hg : e.Good) (hf : ∀ q ∈ e.ranges, q.PrintsFull cfg) (hits : e.its = [])
+    (hm : ∀ h ∈ e.hosts, (m h).isSome = true) :
+    ∃ ek ed, filterRegex cfg m false pat e = .ok ek ∧ filterRegex cfg m true pat e = .ok ed ∧
+      ∀ x, ek.hosts.count x + ed.hosts.count x = e.hosts.count x := by
+  obtain ⟨ek, h1, h2, _⟩ := filterRegex_hosts cfg hfix m false pat e hid hg hf hits hm
+  obtain ⟨ed, h3, h4, _⟩ := filterRegex_hosts cfg hfix m true pat e hid hg hf hits hm
+  exact ⟨ek, ed, h1, h3, fun x => by rw [h2, h4]; exact filter_keep_drop_count m x e.hosts hm⟩
+
+/-- a pattern that matches EVERY host of the list (the empty pattern, `.*`, `^`, `x*` …): as a keep filter it
+    removes nobody, as a drop filter it leaves nobody -/
+theorem filter_matches_everything (cfg : Cfg) (hfix : cfg.fixRemoveDepth = true) (m : Str → Option Bool)
+    (pat : Str) (e : EL) (hid : e.IdsOk) (hg : e.Good) (hf : ∀ q ∈ e.ranges, q.PrintsFull cfg) (hits : e.its = [])
+    (hm : ∀ h ∈ e.hosts, m h = some true) :
+    (∃ e', filterRegex cfg m false pat e = .ok e' ∧ e'.hosts = e.hosts) ∧
+    (∃ e', filterRegex cfg m true pat e = .ok e' ∧ e'.hosts = []) := by
+  have hs : ∀ h ∈ e.hosts, (m h).isSome = true := fun h hh => by rw [hm h hh]; rfl
+  obtain ⟨ek, h1, h2, _⟩ := filterRegex_hosts cfg hfix m false pat e hid hg hf hits hs
+  obtain ⟨ed, h3, h4, _⟩ := filterRegex_hosts cfg hfix m true pat e hid hg hf hits hs
+  refine ⟨⟨ek, h1, ?_⟩, ⟨ed, h3, ?_⟩⟩
+  · rw [h2]; exact filter_all_true fun h hh => keepOf_keep (hm h hh)
+  · rw [h4]; exact filter_all_false fun h hh => by rw [keepOf_drop (hm h hh)]; rfl
+
+/-- a pattern that matches NO host of the list (`^$`, `q`): as a keep filter it leaves nobody ("no remote hosts
+    specified"), as a drop filter it removes nobody -/
+theorem filter_matches_nothing (cfg : Cfg) (hfix : cfg.fixRemoveDepth = true) (m : Str → Option Bool)
+    (pat : Str) (e : EL) (hid : e.IdsOk) (hg : e.Good) (hf : ∀ q ∈ e.ranges, q.PrintsFull cfg) (hits : e.its = [])
+    (hm : ∀ h ∈ e.hosts, m h = some false) :
+    (∃ e', filterRegex cfg m false pat e = .ok e' ∧ e'.hosts = []) ∧
+    (∃ e', filterRegex cfg m true pat e = .ok e' ∧ e'.hosts = e.hosts) := by
+  have hs : ∀ h ∈ e.hosts, (m h).isSome = true := fun h hh => by rw [hm h hh]; rfl
+  obtain ⟨ek, h1, h2, _⟩ := filterRegex_hosts cfg hfix m false pat e hid hg hf hits hs
+  obtain ⟨ed, h3, h4, _⟩ := filterRegex_hosts cfg hfix m true pat e hid hg hf hits hs
+  refine ⟨⟨ek, h1, ?_⟩, ⟨ed, h3, ?_⟩⟩
+  · rw [h2]; exact filter_all_false fun h hh => keepOf_keep (hm h hh)
+  · rw [h4]; exact filter_all_true fun h hh => by rw [keepOf_drop (hm h hh)]; rfl
+
 /-! ### composition -/
 /-- EXCLUSION CORRECT.  `ws`: the comma words of the command line by meaning — target words
     (`pre[ranges]suffix` or plain names), exclusion words (`-` + such a word), filters (`/re/`, and the
@@ -116,6 +163,120 @@ theorem exclusion_correct_instance :
     cliWords Cfg.repaired demoEnv (demoWords.map CW.text) = .ok ["foo1".toList, "bar".toList] :=
   demo_correct
 
+
+/-! ### order independence OF THE MODEL, the option level, termination -/
+/-- REGARDLESS OF THE ORDER (the model, not only the specification): `b` is a permutation of the words `a` in
+    which the target words keep their relative order — exclusions and filters may stand before, between or after
+    the targets, in any order.  `wcoll_arg_process` on every word, then `wcoll_apply_excluded`, `wcoll_apply_regex`,
+    `wcoll_expand` give the same hosts for both (`Domain` is asked of ONE of the two: it only depends on which
+    words there are). -/
+theorem model_order_independent (cfg : Cfg) (hD1 : cfg.fixDeleteAll = true) (hD17 : cfg.fixIterSuffix = true)
+    (hD19 : cfg.fixRemoveDepth = true) (env : Env) (a b : List CW) (hd : Domain cfg env a)
+    (hp : a.Perm b) (ht : tgts a = tgts b) :
+    cliWords cfg env (b.map CW.text) = cliWords cfg env (a.map CW.text) :=
+  cliWords_order_independent cfg hD1 hD17 hD19 env a b hd hp ht
+
+/-- non-vacuity: the exclusion first, the filter between the two targets — same hosts as `demoWords` -/
+example : cliWords Cfg.repaired demoEnv
+    ([CW.xcl (.plain "foo2".toList), .tgt (.br "foo".toList [⟨"1".toList, some "3".toList⟩] [] none),
+      .re true "3".toList, .tgt (.plain "bar".toList)].map CW.text) =
+    .ok ["foo1".toList, "bar".toList] := by
+  rw [model_order_independent Cfg.repaired rfl rfl rfl demoEnv demoWords _ demo_domain
+    ((List.Perm.swap _ _ _).trans (.cons _ (.cons _ (.swap _ _ [])))) rfl]
+  exact demo_correct
+
+/-- FROM THE OPTIONS: the command line as `getopt` hands it over — a list of `-w LIST` and `-x LIST` arguments,
+    the words grouped into options in any way (`OptG.ok`, decidable: every piece survives `list_split`: non-empty,
+    no comma outside brackets, brackets balanced) — `list_split`, the dash `wcoll_append_excluded` puts in front
+    of every piece of a `-x` argument, and the rest of `opt_args` lead to the specification's hosts -/
+theorem exclusion_correct_options (cfg : Cfg) (hD1 : cfg.fixDeleteAll = true) (hD17 : cfg.fixIterSuffix = true)
+    (hD19 : cfg.fixRemoveDepth = true) (env : Env) (gs : List OptG) (hok : ∀ g ∈ gs, g.ok = true)
+    (hd : Domain cfg env (gs.flatMap OptG.words)) :
+    cliFinal cfg env (gs.map OptG.ev) = .ok (specWords env (gs.flatMap OptG.words)) :=
+  cliFinal_options cfg hD1 hD17 hD19 env gs hok hd
+
+/-- `pdsh -w foo[1-3] -x foo2 -w bar,WORD` with WORD = dash slash 3 slash: foo1 and bar, through the theorem -/
+def demoOptions : List OptG :=
+  [.w [.tgt (.br "foo".toList [⟨"1".toList, some "3".toList⟩] [] none)], .x [.xcl (.plain "foo2".toList)],
+   .w [.tgt (.plain "bar".toList), .re true "3".toList]]
+
+example : demoOptions.map OptG.ev = [.w "foo[1-3]".toList, .x "foo2".toList, .w "bar,-/3/".toList] := by decide
+
+theorem exclusion_correct_options_instance :
+    cliFinal Cfg.repaired demoEnv (demoOptions.map OptG.ev) = .ok ["foo1".toList, "bar".toList] := by
+  rw [exclusion_correct_options Cfg.repaired rfl rfl rfl demoEnv demoOptions (by decide) demo_domain]
+  decide
+
+/-- ... and neither the grouping of the words into options nor their order matters -/
+theorem grouping_independent (cfg : Cfg) (hD1 : cfg.fixDeleteAll = true) (hD17 : cfg.fixIterSuffix = true)
+    (hD19 : cfg.fixRemoveDepth = true) (env : Env) (g1 g2 : List OptG) (h1 : ∀ g ∈ g1, g.ok = true)
+    (h2 : ∀ g ∈ g2, g.ok = true) (hd : Domain cfg env (g1.flatMap OptG.words))
+    (hp : (g1.flatMap OptG.words).Perm (g2.flatMap OptG.words))
+    (ht : tgts (g1.flatMap OptG.words) = tgts (g2.flatMap OptG.words)) :
+    cliFinal cfg env (g2.map OptG.ev) = cliFinal cfg env (g1.map OptG.ev) :=
+  cliFinal_grouping_independent cfg hD1 hD17 hD19 env g1 g2 h1 h2 hd hp ht
+
+/-- ALWAYS TERMINATES, whatever the size of the exclusion list: inside `Domain` (which bounds neither the number
+    of exclusion words nor the number of names each denotes nor the number of filters) the model of `opt_args`,
+    run with the fuel the driver passes, never reports `diverge` or exhausted fuel -/
+theorem pipeline_terminates (cfg : Cfg) (hD1 : cfg.fixDeleteAll = true) (hD17 : cfg.fixIterSuffix = true)
+    (hD19 : cfg.fixRemoveDepth = true) (env : Env) (ws : List CW) (hd : Domain cfg env ws) :
+    (cliWords cfg env (ws.map CW.text)).ends = true :=
+  cliWords_ends cfg hD1 hD17 hD19 env ws hd
+
+/-! ### up to the hosts contacted (C02 ∘ C03) -/
+/-- NEVER CONTACTED / ALL OTHERS SURVIVE, at the level of `rcmd_connect`.  `hosts`: what `opt_args` leaves in
+    `opt->wcoll` for the words `ws` (C02's model); `dsh()` makes one target per host, in list order, and C03's
+    fan-out LTS (every schedule of dispatcher and workers, either wait construct, any fanout, spurious wake-ups)
+    starts the connects.  In EVERY execution `ls`, finished or not:
+      * every host a connect was started for is a target that no exclusion names and that passes every filter,
+      * no position of the list gets a second connect;
+    and once `dsh()` has returned the hosts contacted are exactly the specification's list, every occurrence
+    once (as a multiset: the ORDER of the connects belongs to the scheduler).
+    Imports C03 `each_op_once`, `none_else`, `exit_after_all`; that dsh.c refines the LTS is C03's correspondence. -/
+theorem excluded_never_contacted (cfg : Cfg) (hD1 : cfg.fixDeleteAll = true) (hD17 : cfg.fixIterSuffix = true)
+    (hD19 : cfg.fixRemoveDepth = true) (env : Env) (ws : List CW) (hd : Domain cfg env ws) (hosts : List Str)
+    (hc : cliWords cfg env (ws.map CW.text) = .ok hosts)
+    (v : Dsh.Fan.Variant) (f : Nat) (ls : List Dsh.Fan.Label) (s : Dsh.Fan.St)
+    (he : Dsh.Fan.Exec (Dsh.Fan.init v f hosts.length) ls s) :
+    (∀ h ∈ contacted hosts ls, h ∈ Spec.expand₁ (tgts ws) ∧ h ∉ Spec.expand₁ (xcls ws) ∧
+        keepAll env (regs ws) h = true) ∧
+    (started ls).Nodup ∧
+    (Dsh.Fan.Final s → (contacted hosts ls).Perm (specWords env ws)) := by
+  have hh : hosts = specWords env ws := by
+    rw [exclusion_correct cfg hD1 hD17 hD19 env ws hd] at hc
+    exact (Res.ok.inj hc).symm
+  refine ⟨fun h hm => ?_, (started_nodup_lt he).1, fun hf => ?_⟩
+  · have := contacted_mem hosts ls h hm
+    rw [hh] at this
+    unfold specWords at this
+    obtain ⟨h1, h2⟩ := List.mem_filter.mp this
+    obtain ⟨h3, h4⟩ := List.mem_filter.mp h1
+    refine ⟨h3, ?_, h2⟩
+    intro hx
+    have h5 : ¬ h ∈ Spec.expand₁ (xcls ws) := by simpa using h4
+    exact h5 hx
+  · have := contacted_perm hosts he hf
+    rwa [hh] at this ⊢
+
+/-- non-vacuity: the demo command line (hosts foo1, bar) and a complete run of the fan-out with fanout 1 (one
+    spurious wake-up): both hosts contacted, foo1 first -/
+example : ∃ ls s, Dsh.Fan.Exec (Dsh.Fan.init .whileWait 1 ["foo1".toList, "bar".toList].length) ls s ∧
+    Dsh.Fan.Final s ∧ contacted ["foo1".toList, "bar".toList] ls = ["foo1".toList, "bar".toList] := by
+  let ls : List Dsh.Fan.Label :=
+    [.d .lock, .d (.create 0), .d .unlock, .d .lock, .d .wait,
+     .w 0 .connectBegin, .w 0 .connectEnd, .w 0 .destroyBegin, .w 0 .destroyEnd, .w 0 .lock, .w 0 .signal,
+     .d (.wake false), .w 0 .unlock, .d .relock, .d (.create 1), .d .unlock, .d .lock, .d .wait,
+     .d (.wake true), .d .relock, .d .wait,
+     .w 1 .connectBegin, .w 1 .connectEnd, .w 1 .destroyBegin, .w 1 .destroyEnd, .w 1 .lock, .w 1 .signal,
+     .w 1 .unlock, .d (.wake false), .d .relock, .d .unlock, .d .ret]
+  have hr : (Dsh.Fan.run (Dsh.Fan.init .whileWait 1 2) ls).isSome = true := by decide
+  obtain ⟨s, hs⟩ := Option.isSome_iff_exists.mp hr
+  refine ⟨ls, s, Dsh.Fan.exec_of_run hs, ?_, by decide⟩
+  have hd : (Dsh.Fan.run (Dsh.Fan.init .whileWait 1 2) ls).map (·.dpc) = some .returned := by decide
+  rw [hs] at hd
+  exact Option.some.inj hd
+
 /-! ### the buffer loop of `list_push_hostlist` (D2) -/
 /-- TERMINATION (repaired D2): the loop stops within 12 doublings whatever the length of the
     exclusion text -/
@@ -134,6 +295,24 @@ theorem pushHostlist_unchanged_small (len : Nat) (h : len < 4095) (fuel : Nat) :
   unfold pushLoop
   have : ¬ len ≥ 4096 - 1 := by omega
   simp [this]
+
+/-- EXCLUSION FILE, D2 repaired: as long as the ranged form of the file is shorter than 2^22 - 1 bytes the entry
+    pushed on `exclude_list` is the whole text ... -/
+theorem exclusion_file_whole (cfg : Cfg) (hfix : cfg.fixPushLoop = true) (hl : EL)
+    (h : (rangedText hl.ranges).length < 2 ^ 22 - 1) : pushHostlist cfg hl = .ok (rangedText hl.ranges) :=
+  pushHostlist_whole cfg hfix hl h
+
+/-- ... F02-XFILE-4MIB: from 2^22 - 1 bytes on the ceiling `0x7fffff` ends the loop after the attempt with a
+    4 MiB block, whose CUT text is pushed: the hosts behind the cut are still contacted (observed on the real pdsh:
+    a file of 10^6 names, the 500 000th and the last are contacted).  The statement of the property
+    ("whatever the size of the exclusion list") is FALSE of the code from that size on; the model stops there. -/
+theorem exclusion_file_cut (cfg : Cfg) (hfix : cfg.fixPushLoop = true) (hl : EL)
+    (h : (rangedText hl.ranges).length ≥ 2 ^ 22 - 1) :
+    pushHostlist cfg hl = .error (.ub "exclusion text cut at 4 MiB") :=
+  pushHostlist_cut cfg hfix hl h
+
+/-- the loop without ceiling (findings/C02-XFILE4M.patch) hands on the whole text whatever its length -/
+theorem exclusion_file_repaired (hl : EL) : pushHostlistR hl = .ok (rangedText hl.ranges) := rfl
 
 /-! ### the specification -/
 /-- ORDER INDEPENDENCE: exclusions and filters may stand anywhere among the targets (and in any
